@@ -3,7 +3,7 @@
    (flags false = the code as it is, flags true = the repaired code). *)
 From Coq Require Import Permutation.
 From PV Require Import Model.Transform Model.Simplify Model.TransformX Proofs.CircuitP Proofs.ComponentsP
-  Proofs.TransformP Proofs.FlattenP Proofs.BubbleP Proofs.SimplifyP Proofs.WitnessP.
+  Proofs.TransformP Proofs.FlattenP Proofs.BubbleP Proofs.SimplifyP Proofs.PermP Proofs.WitnessP.
 Local Open Scope nat_scope.
 
 (* ================= inversion ================= *)
@@ -144,6 +144,20 @@ Theorem C11_ps_commutes_with_disjoint : forall (R : cring) M k (e : R) o w (A : 
   meq M (mmul M (embed k 1 (ps_mat e)) (embed o w A)) (mmul M (embed o w A) (embed k 1 (ps_mat e))).
 Proof. exact ps_commute. Qed.
 Print Assumptions C11_ps_commutes_with_disjoint.
+
+(* two consecutive PERMs = one PERM with perm_compose's vector on range(max_r) *)
+Theorem C11_perm_fuse : forall (R : cring) M lo lp ro rp, is_perm lp -> is_perm rp ->
+  Nat.max (lo + length lp) (ro + length rp) <= M ->
+  meq M (mmul M (embed ro (length rp) (perm_mat rp)) (embed lo (length lp) (perm_mat lp)))
+        (embed 0 (Nat.max (lo + length lp) (ro + length rp)) (perm_mat (R:=R) (perm_compose lo lp ro rp))).
+Proof. exact perm_fuse. Qed.
+Print Assumptions C11_perm_fuse.
+(* reduce_perm: trimming the fixed points at both ends preserves the matrix (identity -> nothing left) *)
+Theorem C11_perm_trim : forall (R : cring) M a p, is_perm p -> a + length p <= M ->
+  let '(o', p') := reduce_perm a p in
+  meq M (embed a (length p) (perm_mat (R:=R) p)) (embed o' (length p') (perm_mat p')).
+Proof. exact perm_trim. Qed.
+Print Assumptions C11_perm_trim.
 
 (* _update_adjacent as it is loses modes (the heuristic then builds a non-permutation or moves a component wrongly) *)
 Theorem C11_update_adjacent_refuted :
